@@ -119,13 +119,13 @@ def classify(component, what, case):
     if case.get("crash") and "ly_vlog_build_path_append" in case.get("stderr", "") and "heap-use-after-free" in case.get("stderr", ""):
         return None     # the harness empties a stale log location after the call that left it (law `logloc`), so this must not happen
     if law == "logloc":
-        # F52: lyd_find_path / lyd_new_path on a non-empty tree, key predicate whose NameTest is not a child of the list: early return without LOG_LOCBACK
+        # F67: lyd_find_path / lyd_new_path on a non-empty tree, key predicate whose NameTest is not a child of the list: early return without LOG_LOCBACK
         if case.get("op") in ("find", "newpath") and case.get("reply", [None, None])[:2] == ["err", "Invalid"] and unknown_key_name(case):
-            return "F52"
+            return "F67"
         return None
     if law == "unterminated":
-        # F51: static buffer too small for the first segment: nothing is written, not even a NUL
-        return "F51" if case.get("model") == "~" else None
+        # F66: static buffer too small for the first segment: nothing is written, not even a NUL
+        return "F66" if case.get("model") == "~" else None
     if "tser" not in case or "addr" not in case:
         return None
     forest = pg.parse_ser(case["tser"])
@@ -133,14 +133,14 @@ def classify(component, what, case):
     if law in ("find", "xpath", "chain", "exists") and chain_has_both_quotes(forest, addr):
         return "F7"
     if law == "xpath" and case.get("rc", 0) <= -12:
-        # F53: more than one node returned, and a sibling from another module has the same name
+        # F68: more than one node returned, and a sibling from another module has the same name
         sibs, i, n = pg.chain_of(forest, addr)[-1]
         if any(m[1] == n[1] and m[0] != n[0] for m in sibs):
-            return "F53"
+            return "F68"
     if law == "chain" and case.get("rc") == LY_EINVAL:
         p = top_position(forest, addr)
         if p is not None and p > 1:
-            return "F50"
+            return "F65"
     return None
 
 
